@@ -179,7 +179,7 @@ def run(tier, rep):
                             "non-UTF-8 exe path}, caller process/user, generated rule set+mode per endpoint, method, URL incl. '..' variants, headers, body) sent through the "
                             "real ProxyServer; oracle = decision table from the statement + reference RBAC; observed = client status and every byte at the mock hosts. "
                             "non-trivial = any refusal branch, unattributed/odd attribution, or a non-disabled rule set on the destination; distinct by (branch, method, attribution, user)")
-    for res in sandbox.run_many("vf.props.c01", "worker", args, workers=shards, timeout=900):
+    for res in sandbox.run_many("vf.props.c01", "worker", args, workers=shards, timeout=900 if tier == "quick" else 5400):
         rep.merge_worker(res)
     rep.assumptions += ["hook H1 stands in for the kernel audit map (lookup/remove); the aya glue is bypassed",
                         "the 500 branch (policy lookup failure) cannot be driven end to end (all actors live in one runtime); it is probed at the public lookup function with a key-keeper state whose actor is gone",
